@@ -97,6 +97,36 @@ class RecView:
         return f"Rec({type(self._o).__name__} {getattr(self._o, 'name', '')!r})"
 
 
+class RefView:
+    """A survey element seen as a reference (opaque kind): equality is identity (SurveyElement.__eq__ compares dumps),
+    attributes that hold elements are references again."""
+
+    def __init__(self, obj):
+        object.__setattr__(self, "_o", obj)
+
+    def __getattr__(self, name):
+        v = getattr(self._o, name)
+        return RefView(v) if _is_element(v) else v
+
+    def __eq__(self, o):
+        return _unview(o) is self._o
+
+    def __hash__(self):
+        return id(self._o)
+
+    def __bool__(self):
+        return True
+
+    def __repr__(self):
+        return f"Ref({type(self._o).__name__} {getattr(self._o, 'name', '')!r})"
+
+
+def _is_element(v):
+    from pyxform.survey_element import SurveyElement
+
+    return isinstance(v, SurveyElement)
+
+
 class SnapView(NodeView):
     """Entry-state snapshot of a node the call may modify (cloneNode needs an owner document; pyxform's nodes are detached)."""
 
@@ -158,6 +188,10 @@ def view(v):
 
     if isinstance(v, Node):
         return NodeView(v)
+    if _is_element(v):
+        return RefView(v)
+    if isinstance(v, tuple) and any(_is_element(x) for x in v):
+        return tuple(view(x) for x in v)
     if isinstance(v, types.GeneratorType):
         return [view(x) for x in v if x is not None]
     if isinstance(v, (list, tuple)) and any(isinstance(x, Node) for x in v):
@@ -174,7 +208,7 @@ def survey_of(e):
 def _unview(x):
     if isinstance(x, NodeView):
         return x._n
-    if isinstance(x, RecView):
+    if isinstance(x, RecView | RefView):
         return x._o
     return x
 
@@ -194,6 +228,7 @@ def monitor_env():
         return any(c.__name__ == name for c in type(e).__mro__)
 
     universe: list = []
+    elements: list = []     # every element of the tree the current call belongs to (range of forall_of)
 
     def forall_str(fn):
         return all(fn(s) for s in list(universe))
@@ -225,6 +260,9 @@ def monitor_env():
         "ElemFlat": lambda c: c.get("flat") if hasattr(c, "flat") else None,
         "LabelHintNodes": lambda e, s: view(e.xml_label_and_hint(survey=s)),
         "SectionInstance": lambda sec, s: view(type(sec).__mro__[[c.__name__ for c in type(sec).__mro__].index("Section")].xml_instance(sec, survey=s)),
+        "ChildControl": lambda c: view(c.xml_control(survey=survey_of(c))),
+        "LabelNode": lambda e, s: view(e.xml_label(survey=s)),
+        "RepeatDynDefaults": lambda e: view(list(e._dynamic_defaults_helper(current=e, survey=survey_of(e)))),
         "ParsedKids": parsed_kids,
         "is_a": is_a,
         "has_attr": lambda e, a: hasattr(e, a),
@@ -232,12 +270,15 @@ def monitor_env():
         "some": lambda x: x,
         "same": lambda a, b: a == b and (not isinstance(a, dict) or list(a) == list(b)),
         "forall_str": forall_str,
+        "forall_of": lambda kind, fn: all(fn(RefView(e)) for e in elements),
+        "Depth": lambda e: sum(1 for _ in _unview(e).iter_ancestors()),
+        "_elements": elements,
         "strip": lambda s: s.strip(),
         "_universe": universe,
     }
     for k in ("Descendants", "XPathOf", "Subst", "SubstIn", "IovText", "IovFlag", "ElemBinds", "ElemDynDefault",
               "RepeatAncestors", "ChildInst", "TemplateInst", "TemplateNode", "FlatKids", "ElemFlat", "LabelHintNodes",
-              "SectionInstance", "is_a", "has_attr"):
+              "SectionInstance", "is_a", "has_attr", "ChildControl", "LabelNode", "RepeatDynDefaults"):
         env[k] = U(env[k])
     return env
 
@@ -260,6 +301,10 @@ MONITORED = [
     "pyxform.survey.Survey._setup_xpath_dictionary",
     "pyxform.survey.Survey.xml_instance",
     "pyxform.survey.Survey.xml_descendent_bindings",
+    "pyxform.survey_element.SurveyElement.has_common_repeat_parent",
+    "pyxform.section.Section.xml_control",
+    "pyxform.section.GroupedSection.xml_control",
+    "pyxform.section.RepeatingSection.xml_control",
 ]
 
 
@@ -351,7 +396,7 @@ class Monitor:
                 if c.kwarg is not None:
                     bound[c.kwarg[0]] = dict(extra_kw)
                 env = dict(mon.base)
-                from .kinds import KObj
+                from .kinds import KObj, KOpaque
 
                 kinds = {n: k for n, k, _ in c.params}
                 # entry view of every parameter; record kinds read missing slots as None; fields the call may modify are
@@ -376,6 +421,11 @@ class Monitor:
                     st["skipped_kind"] = st.get("skipped_kind", 0) + 1
                 else:
                     mon.universe[:] = mon.collect_strings(*bound.values())
+                    if any(isinstance(k, KOpaque) and k.name == "ERef" for k in kinds.values()):
+                        root = next(v for n, v in bound.items() if _is_element(v))
+                        while getattr(root, "parent", None) is not None:
+                            root = root.parent
+                        mon.base["_elements"][:] = [root, *[e for e in root.iter_descendants(iter_into_section_items=True) if e is not root]]
             except Exception as e:  # noqa: BLE001  (an adapter error must never change the conversion's behaviour)
                 st["adapter_errors"] = st.get("adapter_errors", 0) + 1
                 mon.adapter_errors.append(f"{fid} (entry): {type(e).__name__}: {e} {traceback.format_exc()[-500:]}")
